@@ -15,7 +15,11 @@ SPEC = {
              "of its real tunnel manager whose RegisterTunnel is a gate before and after, so Tunnel.Close can land before the "
              "registration, in the window before Tunnel.Start, or after the start; all schedules of steps and closes of 2 "
              "connections of length 6 (thorough 7), histories with 1-2 tunnels closed at each point of their life followed by "
-             "limit+1 complete openings, random schedules of up to limit+3 connections), "
+             "limit+1 complete openings, random schedules of up to limit+3 connections; `f<i>` = the step's injectable call fails: "
+             "PrepareConnection / CheckMappingQuota / DialTunnel / RegisterTunnel), CreateConnection also with the id from the "
+             "writer only, through AcceptConnection and with server-generated ids (`conng`), revoked codes / mappings in the "
+             "client's index (`dead`), default quotas 10 / 50 at quota-1, code occupancy = max(index count, handed-out codes still "
+             "valid), "
              "BaseMappingHandler.handleConnection (per-mapping limit from the mapping config and from the user quota; real Tunnel objects "
              "over net.Pipe), conncode.Service.CreateConnectionCode over ConnectionCodeRepository over a gated memory storage (one step = "
              "one storage call) and ActivateConnectionCode with gated GetClientPortMappings/CreatePortMapping over the real port-mapping "
